@@ -186,6 +186,24 @@ def do(op: dict) -> str:
         A, S, _ = Pm.shape
         assert Rm.shape == (S, A)
         return ("P=" + ";".join(fvals(Pm[a, s_]) for a in range(A) for s_ in range(S)) + " R=" + ";".join(fvals(Rm[s_]) for s_ in range(S)))
+    if o == "shippedtab":
+        import importlib
+        mod, cls = op["target"].rsplit(".", 1)
+        p = getattr(importlib.import_module(mod), cls)(**op.get("kwargs", {}))
+        S, A, E = p.state_space, p.action_space, p.random_event_space
+
+        def one(s, a, e):
+            ns, r = p.transition(s, a, e)
+            return ns, p.state_to_index(ns), jnp.asarray(r, dtype=jnp.float64).reshape(())
+
+        f = jax.jit(jax.vmap(jax.vmap(jax.vmap(one, in_axes=(None, None, 0)), in_axes=(None, 0, None)), in_axes=(0, None, None)))
+        nv, ni, rw = f(S, A, E)
+        nv = np.asarray(nv).reshape(-1, S.shape[1]); ni = np.asarray(ni).reshape(-1); rw = np.asarray(rw, dtype=np.float64).reshape(-1)
+        sidx = np.asarray(jax.vmap(p.state_to_index)(S)).reshape(-1)
+        rows = lambda M: ";".join(",".join(str(int(x)) for x in r) for r in np.asarray(M).reshape(len(M), -1))
+        PROBLEMS[op.get("id", "_shipped")] = p
+        return (f"states={rows(S)} actions={rows(A)} events={rows(E)} sidx={','.join(str(int(x)) for x in sidx)} nxtvec={rows(nv)} "
+                f"nxt={','.join(str(int(x)) for x in ni)} rew={fvals(rw)}")
     if o == "semisweep":
         p = PROBLEMS[op["id"]]
         key = (op["id"], op["maxbs"], "semi", op.get("shuffle", 0), op.get("random_seed", 0))
